@@ -170,6 +170,14 @@ def run(run):
             if b.ok:
                 if compile_protocol_headers(run, b):
                     check_batch(run, b, run.pick(20, 40))
+                if not run.quick and bi % 8 == 0:
+                    # thorough tier: the project's own compiler family as a second opinion on 'compiles as C++17'
+                    for hdr in ("fcp.h", "dynamic.h", "can_static_schema.h"):
+                        ok, log = cpp.syntax_only(b.dir, hdr, compiler="g++", timeout=900)
+                        run.count("gxx_syntax_checks")
+                        if not ok:
+                            run.violation("generated %s does not compile with g++ -std=c++17: %s" % (hdr, [l for l in log.split("\n") if "error" in l][:1]), dict(b.case, header=hdr, compiler_output=log[-3000:]))
+                            break
                 if bi == 0:
                     probe_k6(run, b)
             b.cleanup()
